@@ -511,7 +511,7 @@ func init() {
 				}
 			}
 			all := func(string) bool { return true }
-			return []*RuleResult{fr, ruleLiteral(c), tri, own, ruleEdgeByte(c, "graph"), vw, ruleDegSync(c, all), ruleCounts(c, all), ruleIrreflexive(c, "graph"), ruleCtorClass(c)}
+			return []*RuleResult{fr, ruleLiteral(c), tri, own, ruleEdgeByte(c, "graph"), vw, ruleRows(c), ruleDegSync(c, all), ruleCounts(c, all), ruleIrreflexive(c, "graph"), ruleCtorClass(c)}
 		},
 		controls: func(ctl *Ctx) []*RuleResult {
 			fr := &RuleResult{Rule: "FRESH"}
@@ -581,10 +581,62 @@ func ruleRows(c *Ctx) *RuleResult {
 		failf("graph.SparseGraph.Neighbourhoods not found")
 	}
 	rowT := func(t types.Type) bool { return types.Identical(t, tableT) }
+	E := c.Eff()
+	sparseT := c.Pkg("graph").Types.Scope().Lookup("SparseGraph").Type()
 	for _, fn := range c.Funcs {
 		p := fnPkg(fn)
 		if p == nil || p.Pkg.Path() != c.Mod+"/graph" || fn.Synthetic != "" {
 			continue
+		}
+		// (b) a row must not be memory the caller handed in (other than the graph itself): the edit
+		// methods relabel and shrink rows in place
+		f := E.fas[fn]
+		rowVals := map[ssa.Value]ssa.Instruction{}
+		for _, b := range fn.Blocks {
+			for _, in := range b.Instrs {
+				st, ok := in.(*ssa.Store)
+				if !ok {
+					continue
+				}
+				ia, ok := st.Addr.(*ssa.IndexAddr)
+				if !ok {
+					continue
+				}
+				if rowT(ia.X.Type()) {
+					rowVals[st.Val] = in
+					continue
+				}
+				// the one-element array of a variadic append(table, row)
+				if al, ok := ia.X.(*ssa.Alloc); ok && al.Referrers() != nil {
+					for _, ref := range *al.Referrers() {
+						if sl, ok := ref.(*ssa.Slice); ok && rowT(sl.Type()) {
+							rowVals[st.Val] = in
+						}
+					}
+				}
+			}
+		}
+		for v, in := range rowVals {
+			for l := range f.P(v) {
+				if l.o.root < 0 || l.o.root >= rFree || l.o.root >= len(fn.Params) {
+					continue
+				}
+				pt := fn.Params[l.o.root].Type()
+				if pp, ok := pt.Underlying().(*types.Pointer); ok {
+					pt = pp.Elem()
+				}
+				if types.Identical(pt, sparseT) {
+					continue // rows moved within, or copied from, the graph itself: FRESH and COUPLE judge those
+				}
+				desc := c.srcAt(in.Pos())
+				if desc == "" {
+					desc = valName(v)
+				}
+				r.inst("%s: row %s", c.short(fn), desc)
+				r.oblig(false)
+				r.find(c.short(fn)+":row is caller memory", c.instrPos(in), "%s stores as a row of the neighbour table a slice that may be the caller's own (%s): RemoveVertex and RemoveEdge later rewrite rows in place, so the caller's slice and every graph sharing it change", c.short(fn), E.apString(fn, f.apOf(l)))
+				break
+			}
 		}
 		for _, b := range fn.Blocks {
 			for _, in := range b.Instrs {
@@ -663,8 +715,18 @@ func ruleOwner(c *Ctx, pkgRel, typeName string, methods []string) *RuleResult {
 	E := c.Eff()
 	T := c.Pkg(pkgRel).Types.Scope().Lookup(typeName).Type()
 	allowed := map[*ssa.Function]bool{}
+	allowNames := map[string]bool{}
 	for _, m := range methods {
 		allowed[c.Fn(m)] = true
+		allowNames[m] = true
+	}
+	// unexported helpers used only by the edit methods count as part of them
+	for _, fn := range c.Funcs {
+		if !allowed[fn] && fn.Synthetic == "" {
+			if ok, _ := derivedAllowed(c, fn, allowNames, map[*ssa.Function]bool{}); ok {
+				allowed[fn] = true
+			}
+		}
 	}
 	isT := func(t types.Type) bool {
 		if t == nil {
